@@ -36,6 +36,7 @@ import (
 // ---- the auxiliary listener process: what runServer starts when no daemon is configured ----
 
 const listenerMode = "listener"
+const dispatcherMode = "dispatcher"
 
 // listenerMain runs in a process of its own, WITHOUT USE_MOCK_KEYS: StartSCIONServer with an empty
 // daemon address (scion.NewDaemonConnector("") is nil) and StartIPServer, as timeservice.go does.
@@ -63,6 +64,71 @@ func listenerMain() {
 // concurrent checks are kept apart by the port)
 func port6(pid int) int { return 21000 + pid%20000 }
 
+// dispatcherMain is the process of a client-mode service: only the end-host dispatcher runs, started
+// the way runClient starts it (local port 0; no DRKey fetcher, no key provider).
+func dispatcherMain() {
+	timebase.RegisterClock(sysClock{})
+	log := slog.New(slog.NewTextHandler(os.Stderr, &slog.HandlerOptions{Level: slog.LevelError}))
+	server.StartSCIONDispatcher(context.Background(), log, &net.UDPAddr{IP: ownAddr(8), Port: 0})
+	time.Sleep(100 * time.Millisecond)
+	fmt.Println("READY")
+	buf := make([]byte, 16)
+	for {
+		if _, err := os.Stdin.Read(buf); err != nil {
+			return
+		}
+	}
+}
+
+var auxDisp *auxProc
+
+// srv.dispatcher: datagrams to the dispatcher process' end-host port, each followed by a
+// forwarding sentinel: a SCION/UDP packet for one of the harness' own sockets, which the
+// dispatcher must pass on to it.
+func (e *netEnv) runDispatcher(a []val) string {
+	if auxDisp == nil || !auxDisp.alive() {
+		var err error
+		auxDisp, err = startAuxMode(dispatcherMode)
+		if err != nil {
+			note("srv.dispatcher: " + err.Error())
+			return "0 []"
+		}
+	}
+	dst := &net.UDPAddr{IP: auxDisp.ip, Port: endhostPort}
+	sockPort := uint16(e.sock.LocalAddr().(*net.UDPAddr).Port)
+	var ss []string
+	for _, d := range a[0].l {
+		s := e.nextSentinel()
+		sh := e.baseSpec(sockPort)
+		sh.dstRaw = []byte(e.peerIP.To4())
+		sh.srcRaw = []byte(e.srvIP.To4())
+		sh.udpSrc = 40001
+		spkt, err := buildSCION(sh, s)
+		if err != nil {
+			panic(err)
+		}
+		ok := e.exchangeRetry(e.sock, dst, d.b, spkt, func(b []byte) bool {
+			pl, _, ok := scionPayload(b)
+			return ok && len(pl) >= 48 && string(pl[40:48]) == string(s[40:48])
+		}, auxDisp.dead)
+		ss = append(ss, lib.Bool(ok))
+		if !ok {
+			break
+		}
+	}
+	if !auxDisp.alive() {
+		auxDisp.mu.Lock()
+		t := auxDisp.tail.String()
+		auxDisp.mu.Unlock()
+		if len(t) > 400 {
+			t = t[:400]
+		}
+		note("dispatcher process died: " + t)
+		return lib.V("0", lib.L(ss...))
+	}
+	return lib.V("1", lib.L(ss...))
+}
+
 type auxProc struct {
 	cmd   *exec.Cmd
 	ip    net.IP
@@ -74,7 +140,9 @@ type auxProc struct {
 
 var aux *auxProc
 
-func startAux() (*auxProc, error) {
+func startAux() (*auxProc, error) { return startAuxMode(listenerMode) }
+
+func startAuxMode(mode string) (*auxProc, error) {
 	exe, err := os.Executable()
 	if err != nil {
 		return nil, err
@@ -86,7 +154,7 @@ func startAux() (*auxProc, error) {
 		}
 		cmd.Env = append(cmd.Env, kv)
 	}
-	cmd.Env = append(cmd.Env, childEnv+"="+listenerMode)
+	cmd.Env = append(cmd.Env, childEnv+"="+mode)
 	stdin, err := cmd.StdinPipe()
 	if err != nil {
 		return nil, err
@@ -534,6 +602,63 @@ func (g *gen) genThird() {
 	hon6[0], hon6[1] = 0x24, 1
 	for i := 0; i < g.n(8, 80); i++ {
 		g.add("cli.ip6", "nt", lib.V(lib.L(lib.L(lib.I(int64(r.Intn(2))), lib.B(g.mutate(hon6))), lib.L("0", lib.B(r.Bytes(lib.Pick(r, 0, 47, 49, 100))))), "1"))
+	}
+	// the end-host dispatcher of a client-mode process: every family for the L4 ports 0, 123, 10123,
+	// 30041, 65535 and for a socket of the harness
+	var dd [][]byte
+	vv := e.ntsVariants(r)
+	vnts, _ := e.validNTS(r, 1)
+	for _, port := range []uint16{0, 123, 10123, 30041, 65535, sockPort} {
+		mk := func() *scionSpec {
+			h := e.baseSpec(port)
+			h.udpSrc = sockPort
+			if port == sockPort {
+				h.dstRaw = []byte(e.peerIP.To4())
+			}
+			return h
+		}
+		for _, pl := range [][]byte{ntpHeader(r), vnts, lib.Pick(r, vv...), lib.Pick(r, vv...), lib.Pick(r, vv...), r.Bytes(3), nil} {
+			if b, err := buildSCION(mk(), pl); err == nil {
+				dd = append(dd, b)
+			}
+		}
+		for _, pl := range [][]byte{ntpHeader(r), vnts} {
+			if b, err := buildSCIONAuth(mk(), pl, 0x0003007b, mockKey, r.Intn(2)); err == nil {
+				dd = append(dd, b)
+			}
+		}
+		h := mk()
+		h.e2e = []*slayers.EndToEndOption{{OptType: 253, OptData: r.Bytes(16)}, {OptType: slayers.OptTypeAuthenticator, OptData: r.Bytes(lib.Pick(r, 0, 12, 28, 29))}}
+		h.hbh = true
+		if b, err := buildSCION(h, vnts); err == nil {
+			dd = append(dd, b)
+		}
+		for _, pt := range []struct {
+			t   uint8
+			raw []byte
+		}{{2, oneHopComplete}, {2, oneHopIncomplete}, {1, scionZeroSeg}, {1, hopPath(1, 2, 0, 0)}} {
+			h := mk()
+			h.pathType, h.pathRaw = pt.t, pt.raw
+			if b, err := buildSCION(h, vnts); err == nil {
+				dd = append(dd, b)
+			}
+		}
+	}
+	for _, t := range []slayers.SCMPType{slayers.SCMPTypeEchoRequest, slayers.SCMPTypeTracerouteRequest, slayers.SCMPTypeEchoReply, 1} {
+		for _, l := range []int{0, 3, 4, 8, 100} {
+			h := base()
+			h.scmp, h.scmpRaw = int(t), true
+			if b, err := buildSCION(h, r.Bytes(l)); err == nil {
+				dd = append(dd, b)
+			}
+		}
+	}
+	dd = append(dd, r.Bytes(0), r.Bytes(7), r.Bytes(48), r.Bytes(300), r.Bytes(9300))
+	for i := 0; i < g.n(10, 150); i++ {
+		dd = append(dd, g.mutate(lib.Pick(r, dd...)))
+	}
+	for i := 0; i < len(dd); i += 5 {
+		g.add("srv.dispatcher", "nt", bl(dd[i:min(i+5, len(dd))]...))
 	}
 	// SCION paths with info and hop fields (one segment of two hops; two segments)
 	for _, raw := range [][]byte{hopPath(1, 2, 0, 0), hopPath(0, 2, 0, 0), hopPath(1, 2, 2, 0), hopPath(3, 2, 2, 0), hopPath(1, 3, 0, 0)} {
